@@ -119,6 +119,8 @@ def strategy_impl(draw, tier):
         "route": draw(st.sampled_from(["decorator-string", "decorator-hints", "apply"])),
         # the very same GridUFunc object is used with another Grid (other axis defaults) first
         "other_grid_first": draw(st.booleans()),
+        # how the boolean options are spelled: Python bools, numpy bools (the result of a numpy comparison), or 0 / 1
+        "flag_style": draw(st.sampled_from(["python", "python", "numpy", "int"])),
         "grid": draw(gen.grid_settings(names, exotic=False)),
         "misplace": draw(st.booleans()),
         "lazy": draw(st.sampled_from(["no", "def", "call", "both"])),
@@ -210,10 +212,11 @@ def check(case, ctx):
         if o["where"] in ("call", "both"):
             call_kw[k] = build.copy_arg(o["call"])
     pbw = case["pad_before_where"] if route != "apply" else "call"
+    flag = {"python": bool, "numpy": np.bool_, "int": int}[case.get("flag_style", "python")]
     if pbw in ("def", "both"):
-        def_kw["pad_before_func"] = pad_before if pbw == "def" else (not pad_before)
+        def_kw["pad_before_func"] = flag(pad_before if pbw == "def" else (not pad_before))
     if pbw in ("call", "both"):
-        call_kw["pad_before_func"] = pad_before
+        call_kw["pad_before_func"] = flag(pad_before)
     bw_arg = {d: tuple(w) for d, w in bw.items()} if bw else None
     bw_where = case["bw_where"] if route != "apply" else "call"
 
